@@ -15,10 +15,10 @@ T = {
          "Every combination of length, API, buffering, write()-split, server answer style and predecessor transfer within the bound is executed on the real SdoClient against a strict CiA 301 acceptor; data and every request frame are judged.",
          "Trusted: the reference server (mc/refs/sdo_server.py, written from CiA 301) and the SimBus. Lengths > 64 only for single writes and 1-cut splits (thorough).", "2/C01"),
  "C02": ("model_checking", "explicit-state BFS over request-frame histories of the real SdoServer + value/source matrix",
-         "Request histories up to the depth bound from a fresh node, de-duplicated on the server's state, with a strict reference client probing every reached state; plus the exhaustive value-source/type/length matrix.",
+         "All request-frame histories up to depth 4 (quick) / 6 (thorough) from a fresh node, globally de-duplicated on the real server's state (level-synchronous parallel BFS), the reference judgement stepped in lock-step, a strict reference client probing every reached state; plus the exhaustive value-source/type/length matrix.",
          "Trusted: reference client and frame grammar (mc/refs). Depth-bounded (no closure: buffers grow).", "2/C02"),
- "C03": ("model_checking", "exhaustive value enumeration + preemption-bounded schedule exploration of client/dispatcher/noise threads",
-         "All 8/16-bit values, boundary sets of the wider types, real grid, strings 0..N through RemoteNode -> bus -> LocalNode and back; the threaded delivery paths are explored over all schedules up to the preemption bound under a cooperative scheduler that owns every thread.",
+ "C03": ("model_checking", "exhaustive value enumeration + deviation-bounded exhaustive schedule exploration of client/dispatcher/noise threads on the real code",
+         "All 8/16-bit values, boundary sets of the wider types, real grid, strings 0..N through RemoteNode -> bus -> LocalNode and back; the threaded delivery paths are explored over all schedules with at most D departures from the default schedule (D=1 quick, 2 thorough) under a cooperative scheduler that owns every thread.",
          "Trusted: mc/vsched scheduler (scheduling points at virtual lock/queue/bus operations and interposed attributes). python-can's own notifier thread is outside the bound.", "2/C03"),
  "C04": ("exploration", "exhaustive enumeration of the stated value and byte-pattern sets against a reference codec",
          "Complete enumeration of all 8/16-bit values, +-2^k+d boundary sets, all byte strings of length 0..9 over a 5-letter alphabet, the real grid and the ASCII/BMP ranges.",
@@ -41,7 +41,7 @@ T = {
  "C10": ("model_checking", "explicit-state BFS to closure over subscribe/unsubscribe/node operations with a reference multimap",
          "All reachable subscription states of the small id/callback/node pool (closure), with every notify evaluated in every state; all 2048 11-bit ids for scanner and frame format.",
          "Trusted: reference multimap. A third CAN id is explored to a depth only.", "2/C10"),
- "C11": ("model_checking", "BFS over command/heartbeat sequences on a master+slave bus, schedule exploration of the waits",
+ "C11": ("model_checking", "explicit-state BFS (closure in the thorough tier) over command/heartbeat sequences on a master+slave bus; preemption-bounded schedule exploration of the waits with a line-level cross-check",
          "All event sequences up to the depth bound over the command/name/heartbeat alphabet with master and slave compared with the CiA 301 table after every step; wait_for_heartbeat/bootup explored over all schedules up to the preemption bound.",
          "Trusted: mc/refs/nmt.py table; timeouts long compared with scheduling delays.", "2/C11"),
  "C12": ("fault_enumeration", "choice-point DFS over lost segments (deviation bound 2) x block-size plans x CRC negotiation",
@@ -53,10 +53,10 @@ T = {
  "C14": ("exploration", "exhaustive enumeration of a dictionary grammar, export/import round trip, two-export histories",
          "Full product per variable of type x default x limits (rest rotated), all kinds, both document types, all three destinations.",
          "Trusted: attribute comparison; FileInfo time stamps masked.", "2/C14"),
- "C15": ("model_checking", "BFS over producer/consumer operation sequences + schedule exploration of wait_for_reception",
+ "C15": ("model_checking", "explicit-state BFS over producer/consumer operation sequences + preemption-bounded schedule exploration of wait_for_reception with a line-level cross-check",
          "All op sequences up to the depth bound on two nodes sharing a PDO configuration; the waiting reader against the receiving thread over all schedules up to the preemption bound.",
          "Trusted: scheduler; layouts whose producer-side round trip already fails are C05's business and skipped.", "2/C15"),
- "C16": ("model_checking", "BFS over EMCY frame histories + all 65536 codes + schedule exploration of wait()",
+ "C16": ("model_checking", "enumeration of all EMCY frame histories up to the length bound + all 65536 codes + preemption-bounded schedule exploration of wait() with a line-level cross-check",
          "All frame/reset/callback histories up to the depth bound with log/active compared with reference lists; description table exhaustively; wait() over all schedules up to the preemption bound.",
          "Trusted: mc/refs/emcy.py class table.", "2/C16"),
  "C17": ("model_checking", "explicit-state BFS to closure per producer over the periodic-task registry",
